@@ -236,8 +236,9 @@ pub fn run(report: &mut Report, replay: Option<&Value>) {
     let mut cfg = CaseCfg::default();
     cfg.delivery_weights = [34, 33, 33];
     cfg.allow_deny = false;
-    // serde-less twins: abstract types / @oneOf excluded by construction while that finding is open
-    let serdeless_plain = |b: &Base| !(b.features.has("abstract") || b.features.has("fragment_on_abstract") || b.features.has("one_of_var") || b.features.has("union") || b.features.has("interface"));
+    // serde-less twins: abstract types / @oneOf are excluded by construction only while that finding is open
+    let serdeless_open = report.findings.is_open("C02", "serdeless-tagged-enum");
+    let serdeless_plain = |b: &Base| !serdeless_open || !(b.features.has("abstract") || b.features.has("fragment_on_abstract") || b.features.has("one_of_var") || b.features.has("union") || b.features.has("interface"));
     let (n_programs, rounds, n_filter) = if report.thorough() { (500, 10, 100_000) } else { (300, 1, 5_000) };
 
     // --- syn pre-filter over many more cases (in-process generation in workers)
